@@ -595,6 +595,25 @@ func c17Roots(c *Ctx, r *Report) {
 				})
 			} else {
 				ok = !c17DeclaredReaches(fn, replaces.Block())
+				if !ok && fn.Object() != nil && !fn.Object().Exported() {
+					// the test may stand at the call sites: no caller reaches its call with a declared schema
+					ncall := 0
+					ok = true
+					for _, caller := range c.allFns {
+						for _, cs := range callsIn(caller) {
+							if cs.Common().StaticCallee() != fn {
+								continue
+							}
+							ncall++
+							if c17DeclaredReaches(caller, cs.Block()) {
+								ok = false
+							}
+						}
+					}
+					if ncall == 0 {
+						ok = false
+					}
+				}
 			}
 			r.check("C17.ROOTS", fmt.Sprintf("%s: insertion #%d into the schema's root fields only while building an undeclared schema", fnName(fn), k), ci.Pos(), ok,
 				"a root operation field is added to a schema that may have been declared: with `schema { query: Query }` and ordinary types named Mutation or Subscription, introspection reports mutationType / subscriptionType the SDL does not declare")
